@@ -13,7 +13,19 @@ sub-agent.  Steps:
 import json, os, re, shutil, subprocess, sys, tempfile, time
 
 VERIF = os.path.dirname(os.path.dirname(os.path.abspath(__file__)))
-ENV = dict(os.environ, GOFLAGS="-mod=mod", GOPROXY="off", GOSUMDB="off", GOTOOLCHAIN="local")
+# every scratch worktree has its own path, so its packages get their own entries in the Go build cache
+# (40 seeds filled 113 GB of /root/.cache/go-build): scratch builds use a cache of their own, emptied when large
+SEED_GOCACHE = os.environ.get("SEED_GOCACHE", "/tmp/seed_gocache")
+ENV = dict(os.environ, GOFLAGS="-mod=mod", GOPROXY="off", GOSUMDB="off", GOTOOLCHAIN="local", GOCACHE=SEED_GOCACHE)
+
+
+def trim_cache():
+    try:
+        out = subprocess.run("du -sm %s" % SEED_GOCACHE, shell=True, stdout=subprocess.PIPE).stdout.decode().split()
+        if out and int(out[0]) > 12000:
+            shutil.rmtree(SEED_GOCACHE, ignore_errors=True)
+    except Exception:
+        pass
 
 
 def sh(cmd, cwd=None, timeout=1800):
@@ -141,6 +153,7 @@ def main():
     if os.path.exists(readme):
         meta["needs_to_manifest"] = open(readme).read()[:1200]
     json.dump(meta, open(os.path.join(dest, "meta.json"), "w"), indent=1)
+    trim_cache()
     print(json.dumps({k: meta[k] for k in ("seed", "property", "confirmed", "detected", "violation_line", "check_wall_s")}))
 
 
